@@ -856,6 +856,17 @@ KNOWN_CLASSES = {"c08_no_minimal_form": known_c08_no_minimal_form}
 
 # ---- stream lists --------------------------------------------------------------------------------
 
+# ---- source tie (checklib/srctie.py): functions whose model definition is PROVED equal to the definition the translator
+# `srclean` derives from the current Rust source text, per property that rests on them ----
+_SUBTAGS = ["Language.fromBytes", "Script.fromBytes", "Region.fromBytes", "Variant.fromBytes", "Language.asStr"]
+_EXT = ["parseKey", "parseType", "parseAttribute", "isType", "isAttribute", "parseTKey", "parseTValue", "isLanguageSubtag", "parsePrivate",
+        "ExtType.fromByte"]
+_MATCH = ["Language.isMatch", "LangId.subtagMatches", "LangId.isOptionEmpty", "LangId.subtagsMatch", "LangId.isMatch"]
+SRC_TIE = {"C01": _SUBTAGS + _EXT, "C02": _SUBTAGS, "C03": _SUBTAGS + _EXT, "C04": _SUBTAGS + _EXT, "C05": _SUBTAGS + _EXT,
+           "C09": _SUBTAGS + _EXT, "C10": _SUBTAGS + _EXT, "C11": _MATCH, "C12": ["Language.asStr"], "C13": _SUBTAGS, "C15": _SUBTAGS,
+           "C17": _SUBTAGS}
+
+
 PARSE_STREAMS = [("tokens", None), ("wf", None), ("near", None), ("raw", None)]
 
 
@@ -941,6 +952,10 @@ def setup():
         if not ok:
             print(out[-8000:])
             return 1
+        import srctie
+        st = srctie.run(R.REPO, R.ROOT)
+        notp = [f for f, i in st.get("functions", {}).items() if i.get("status") != "proved"]
+        log("source tie: translator built=%s, %d functions, not proved: %s" % (st.get("translator_built"), len(st.get("functions", {})), notp))
     log("setup done in %.0fs" % (time.time() - t0))
     return 0
 
@@ -1227,6 +1242,24 @@ def check(pid, tier, seed):
         broken_theorems.append("lake build UnicLocale.Props.%s failed: %s" % (pid, "; ".join("%s %s" % e for e in errs[:5])))
         log(out_thm[-3000:])
 
+    # ---- source tie: the loop-free functions this property rests on, translated from the current source text and proved equal
+    # to the model.  A function the translator cannot read (`untranslated`) or whose equality no longer proves (`unproved`)
+    # falls back to the differential tie alone; that by itself is not an alarm (DESIGN.md section 10).
+    source_tie = None
+    if pid in SRC_TIE:
+        import srctie
+        with R.Lock():
+            st = srctie.run(R.REPO, R.ROOT)
+        source_tie = {"translator_built": st.get("translator_built"), "functions": {}}
+        for fn in SRC_TIE[pid]:
+            info = st.get("functions", {}).get(fn, {"status": "untranslated", "reason": "not reported by the translator"})
+            source_tie["functions"][fn] = {k: info.get(k) for k in ("status", "reason", "rust", "sha")}
+            if info.get("status") != "proved":
+                log("  source tie: %s is %s (%s); this function is tied to the code by the correspondence streams only" % (
+                    fn, info.get("status"), (info.get("reason") or "")[:200]))
+        source_tie["proved"] = sum(1 for f in source_tie["functions"].values() if f["status"] == "proved")
+        source_tie["of"] = len(source_tie["functions"])
+
     # ---- correspondence + oracle
     known = [k for k in R.load_known() if k.get("property") == pid and k.get("status") == "known"]
 
@@ -1438,6 +1471,7 @@ def check(pid, tier, seed):
             "known_finding_hits": known_hits,
             "cfg_feature_extent": cfg_extent,
             "cldr_translator_crosscheck": cldr_crosscheck,
+            "source_tie": source_tie,
             "source_literal_dictionary": {"tokens": [repr(t)[1:] for t in DICT["tokens"]], "integers": DICT["ints"],
                                           "rule": "literals of /repo's sources that the baseline tree did not have are added to every generator alphabet"},
             "exhaustive": False,
